@@ -117,7 +117,7 @@ class CaseBuilder:
         return {"id": self.cid, "tree": self.tree, "ops": self.ops}
 
     def coq(self):
-        lines = ["Definition t%d : fgnode := %s." % (self.cid, coq_tree(self.tree)),
+        lines = ["Definition t%d : fgnode := %s." % (self.cid, self.meta.get("coq_tree_expr") or coq_tree(self.tree)),
                  "Definition %s := Eval vm_compute in (f_from_root t%d)." % (self.g, self.cid)]
         lines += self.defs
         lines.append("Eval vm_compute in (%s, (o_from_root %s, %s))." %
